@@ -9,6 +9,7 @@ import (
 	"os"
 	"path/filepath"
 	"regexp"
+	"runtime/debug"
 	"sort"
 	"strconv"
 	"strings"
@@ -247,6 +248,25 @@ func (r *Run) Violations() int { r.mu.Lock(); defer r.mu.Unlock(); return r.viol
 // Finish writes the evidence file and fails the test on violations. A run whose monitors
 // observed nothing exits through t.Fatalf with INCONCLUSIVE (driver maps it to exit 2).
 func (r *Run) Finish() {
+	// `defer r.Finish()` makes this the deferred function, so a panic of the subject on the
+	// test goroutine is recovered here and reported as a witness instead of being masked.
+	if p := recover(); p != nil {
+		st := string(debug.Stack())
+		if len(st) > 6000 {
+			st = st[:6000]
+		}
+		site := "?"
+		for _, ln := range strings.Split(st, "\n") {
+			if strings.HasPrefix(ln, "github.com/influxdata/influxdb/v2/") {
+				site = strings.TrimPrefix(ln, "github.com/influxdata/influxdb/v2/")
+				if i := strings.LastIndexByte(site, '('); i > 0 {
+					site = site[:i]
+				}
+				break
+			}
+		}
+		r.Violation("panic", map[string]string{"site": site}, map[string]any{"panic": fmt.Sprint(p), "stack": st})
+	}
 	r.mu.Lock()
 	if r.finished {
 		r.mu.Unlock()
